@@ -2,6 +2,7 @@
 # usage: try_seed.sh <patch.diff> <ID>...   apply a seeded change to /repo, run the checks, undo.
 P="$1"; shift
 cd /verif
+if [ -n "$(git -C /repo status --short)" ]; then echo "REFUSING: /repo has uncommitted changes"; exit 3; fi
 git -C /repo apply "$P" || { echo "patch does not apply"; exit 2; }
 for id in "$@"; do
   ./check "$id" quick 2>&1 | grep -E "^\[|^VIOLATION|^C[0-9]+ " | cut -c1-330 | head -12
